@@ -20,6 +20,15 @@ import (
 
 var verifRoot = "/verif"
 
+// outRoot: where evidence and replay files go (GOVC_OUT redirects them, used when several
+// trees are checked concurrently by the seeded-change matrix)
+func outRoot() string {
+	if o := os.Getenv("GOVC_OUT"); o != "" {
+		return o
+	}
+	return verifRoot
+}
+
 type PropConfig struct {
 	ID        string   `json:"id"`
 	Level     string   `json:"level"`
@@ -367,7 +376,7 @@ func (res *PropResult) report(p *Program, cfg *PropConfig, tier string, writeBas
 	backends := map[string]int{}
 	var vlines []string
 	var knownPrinted []string
-	replayDir := filepath.Join(verifRoot, "replays", cfg.ID)
+	replayDir := filepath.Join(outRoot(), "replays", cfg.ID)
 	for _, s := range all {
 		switch s.Status {
 		case "discharged":
@@ -551,9 +560,9 @@ func writeEvidence(p *Program, cfg *PropConfig, tier string, res *PropResult, al
 		"property_id": cfg.ID, "tier": tier, "seed": res.Seed, "level": level, "coverage": cov,
 		"assumptions": assumptions, "wall_s": res.Wall, "violations": violations,
 	}
-	os.MkdirAll(filepath.Join(verifRoot, "evidence"), 0o755)
+	os.MkdirAll(filepath.Join(outRoot(), "evidence"), 0o755)
 	data, _ := json.MarshalIndent(ev, "", " ")
-	os.WriteFile(filepath.Join(verifRoot, "evidence", cfg.ID+".json"), data, 0o644)
+	os.WriteFile(filepath.Join(outRoot(), "evidence", cfg.ID+".json"), data, 0o644)
 }
 
 // writeReplay writes the replay file for a failed obligation and tries to reproduce the
